@@ -7,11 +7,14 @@
 package main
 
 import (
+	"bufio"
 	"bytes"
 	"crypto/sha256"
+	"encoding/hex"
 	"encoding/json"
 	"fmt"
 	"os"
+	"os/exec"
 	"path/filepath"
 	"sort"
 	"strings"
@@ -531,6 +534,10 @@ func violClass(v string) string {
 }
 
 func main() {
+	if os.Getenv("C05_ENTRY_CHILD") != "" {
+		entryChild()
+		return
+	}
 	r := kit.Start("C05", "model_checking")
 	ops := buildOps()
 	byName := map[string]int{}
@@ -550,6 +557,10 @@ func main() {
 		w := newWorker(root, 1000+int(atomic.AddInt64(&replaySeq, 1)), ops)
 		if c.Kind == "entry" {
 			return checkEntry(w, c.Entry)
+		}
+		if c.Kind == "entry-isolated" {
+			vs, _ := isolatedEntries(root, [][]byte{c.Entry})
+			return vs
 		}
 		var hist []int
 		for _, n := range c.History {
@@ -721,7 +732,40 @@ func main() {
 			}
 		}
 	}
-	r.Sample(map[string]string{"index_entry": string(valid[:70]) + "...", "note": "every 1-byte substitution, every length, pairs in the size/time fields"})
+	// whole-field values: every boundary a 20-byte decimal field can hold
+	sz := int64(len(contents[0]))
+	fieldVals := []string{}
+	for _, v := range []int64{0, 1, sz - 1, sz, sz + 1, 2 * sz, 1 << 16, 1 << 31, 1<<31 - 1, 1 << 32, 1 << 40, 1 << 47, 1 << 48, 1 << 56, 1<<62 - 1, 1 << 62, 1<<63 - 1, 9000000000000000003, -1, -sz, -1 << 63} {
+		fieldVals = append(fieldVals, fmt.Sprintf("%20d", v), fmt.Sprintf("%020d", v), fmt.Sprintf("%-20d", v))
+	}
+	fieldVals = append(fieldVals, "09223372036854775808", " 9223372036854775808", "18446744073709551615", "99999999999999999999", "                 0x5", "                 +"+fmt.Sprint(sz), "                1e10", strings.Repeat(" ", 20), strings.Repeat("0", 20))
+	// These run in a child process: a lookup that trusts a huge size field dies
+	// with an unrecoverable runtime error rather than a panic.
+	var isolated [][]byte
+	for _, fv := range fieldVals {
+		if len(fv) != 20 {
+			continue
+		}
+		b := append([]byte(nil), valid...)
+		copy(b[sizeOff:], fv)
+		isolated = append(isolated, b)
+		b = append([]byte(nil), valid...)
+		copy(b[sizeOff+21:], fv)
+		isolated = append(isolated, b)
+		for _, fv2 := range fieldVals[:12] {
+			b = append([]byte(nil), valid...)
+			copy(b[sizeOff:], fv)
+			copy(b[sizeOff+21:], fv2)
+			isolated = append(isolated, b)
+		}
+	}
+	ivs, ihits := isolatedEntries(root, isolated)
+	entries += int64(len(isolated))
+	entryHits += ihits
+	for _, v := range ivs {
+		r.Violation(v.Key, v.What, v.Case)
+	}
+	r.Sample(map[string]string{"index_entry": string(valid[:70]) + "...", "note": "every 1-byte substitution, every length, pairs in the size/time fields, boundary values of the whole size and time fields"})
 
 	r.Set("states", states)
 	r.Set("transitions", transitions)
@@ -754,4 +798,87 @@ func checkEntry(w *worker, b []byte) []kit.V {
 		lastEntryHit = true
 	}
 	return nil
+}
+
+// entryChild serves checkEntry over stdin/stdout: one hex-encoded entry per
+// line in, one JSON line out.
+func entryChild() {
+	w := newWorker(os.Getenv("C05_ENTRY_ROOT"), 5000+os.Getpid(), buildOps())
+	in := bufio.NewScanner(os.Stdin)
+	in.Buffer(make([]byte, 1<<16), 1<<20)
+	out := bufio.NewWriter(os.Stdout)
+	for in.Scan() {
+		b, err := hex.DecodeString(in.Text())
+		if err != nil {
+			continue
+		}
+		vs := checkEntry(w, b)
+		what, key := "", ""
+		if len(vs) > 0 {
+			what, key = vs[0].What, vs[0].Key
+		}
+		line, _ := json.Marshal(struct {
+			What, Key string
+			Hit       bool
+		}{what, key, lastEntryHit})
+		out.Write(line)
+		out.WriteByte('\n')
+		out.Flush()
+	}
+}
+
+// isolatedEntries runs checkEntry for every entry in a child process (restarted
+// when it dies). A child that dies while looking up an entry is a violation of
+// "no lookup panics" for that entry.
+func isolatedEntries(root string, entries [][]byte) (vs []kit.V, hits int64) {
+	i := 0
+	for i < len(entries) {
+		cmd := exec.Command(os.Args[0])
+		cmd.Env = append(os.Environ(), "C05_ENTRY_CHILD=1", "C05_ENTRY_ROOT="+root, "GOMAXPROCS=2", "GOTRACEBACK=single")
+		var stderr bytes.Buffer
+		cmd.Stderr = &stderr
+		stdin, _ := cmd.StdinPipe()
+		stdout, _ := cmd.StdoutPipe()
+		if err := cmd.Start(); err != nil {
+			kit.Harness("entry child: %v", err)
+		}
+		rd := bufio.NewReaderSize(stdout, 1<<20)
+		for i < len(entries) {
+			fmt.Fprintf(stdin, "%s\n", hex.EncodeToString(entries[i]))
+			line, err := rd.ReadBytes('\n')
+			if err != nil {
+				stdin.Close()
+				cmd.Wait()
+				msg := stderr.String()
+				if k := strings.Index(msg, "\n\n"); k > 0 {
+					msg = msg[:k]
+				}
+				if len(msg) > 300 {
+					msg = msg[:300]
+				}
+				if !strings.Contains(msg, "fatal error") && !strings.Contains(msg, "panic") && !strings.Contains(msg, "runtime") {
+					kit.Harness("entry child died without a runtime error: %q", msg)
+				}
+				b := entries[i]
+				vs = append(vs, kit.V{Key: "lookup-crash index-entry=" + kit.Q(b), What: fmt.Sprintf("index entry %q: a lookup killed the process: %s", b, strings.TrimSpace(msg)), Case: kase{Kind: "entry-isolated", Entry: b}})
+				i++
+				break
+			}
+			var res struct {
+				What, Key string
+				Hit       bool
+			}
+			json.Unmarshal(line, &res)
+			if res.What != "" {
+				b := entries[i]
+				vs = append(vs, kit.V{Key: res.Key, What: res.What, Case: kase{Kind: "entry", Entry: b}})
+			} else if res.Hit {
+				hits++
+			}
+			i++
+		}
+		stdin.Close()
+		cmd.Wait()
+	}
+	return vs, hits
 }
